@@ -124,6 +124,7 @@ func (c *fRegistryImpl) dispatch(opid uint64, frame []byte) error {
 	}
 	c.mu.RUnlock()
 
+	verifYield("registry.dispatch.presend", opid)
 	resultC <- frame
 	return nil
 }
